@@ -1,10 +1,10 @@
 package rules
 
 import (
-	"sort"
 	"fmt"
 	"go/token"
 	"go/types"
+	"sort"
 	"strings"
 
 	"golang.org/x/tools/go/ssa"
@@ -111,6 +111,8 @@ func checkC12(rep *core.Report) {
 	for _, pl := range findPipelines(prog) {
 		checkQueuedBufferKept(prog, r5, pl)
 	}
+	r10 := rep.Rule("R12.10", "a cached template's field specifiers are never written after the template was parsed", 2)
+	checkTemplateSpecifiersReadOnly(prog, r10)
 	r9 := rep.Rule("R12.9", "nothing a worker runs (decode, encode, publish) writes unsynchronised package-level state", 1)
 	{
 		var workers []*ssa.Function
@@ -595,4 +597,158 @@ func checkPoolPerPipeline(prog *core.Program, rr *core.RuleRun) {
 		rr.Check(len(used) == 1, p.name+":one-pool", p.run.Pos(), "receive loop, workers and mirror loop use one pool: "+strings.Join(names, ""),
 			fmt.Sprintf("the functions of one protocol use %d different pools: %s. A buffer from another pool has that pool's size; re-slicing it to this protocol's size panics when this size is larger, and recycling it into this pool hands out short buffers", len(used), strings.Join(names, "; ")))
 	}
+}
+
+// checkTemplateSpecifiersReadOnly (R12.10): a template record is handed to the decoders by value, but its two
+// specifier lists share their backing arrays with the copy kept in the template cache. A store into an element of
+// such a list therefore changes how every later datagram of that exporter is decoded (and races with the other
+// workers). Only the template parsers, which fill the record they were called on before it is cached, may write
+// elements; they must not be reachable from the record decoders.
+func checkTemplateSpecifiersReadOnly(prog *core.Program, rr *core.RuleRun) {
+	isList := func(v ssa.Value) bool {
+		ot, f := fieldLoad(v)
+		if f == nil || !(f.Name() == "FieldSpecifiers" || f.Name() == "ScopeFieldSpecifiers") {
+			return false
+		}
+		n := namedOf(ot)
+		return n != nil && n.Obj().Name() == "TemplateRecord"
+	}
+	// the address chain of a write passes through an element of a specifier list; returns the list load
+	var elemOf func(a ssa.Value, depth int) ssa.Value
+	elemOf = func(a ssa.Value, depth int) ssa.Value {
+		if depth > 8 || a == nil {
+			return nil
+		}
+		switch x := a.(type) {
+		case *ssa.IndexAddr:
+			if isList(x.X) {
+				return x.X
+			}
+			return elemOf(x.X, depth+1)
+		case *ssa.FieldAddr:
+			return elemOf(x.X, depth+1)
+		case *ssa.Slice:
+			if isList(x.X) {
+				return x.X
+			}
+			return elemOf(x.X, depth+1)
+		case *ssa.Phi:
+			for _, e := range x.Edges {
+				if l := elemOf(e, depth+1); l != nil {
+					return l
+				}
+			}
+		case *ssa.UnOp:
+			if x.Op == token.MUL {
+				// a pointer to an element kept in a local: follow what was stored into the local
+				for _, sv := range core.ReachingStores(x) {
+					if l := elemOf(sv, depth+1); l != nil {
+						return l
+					}
+				}
+			}
+		}
+		return nil
+	}
+	underDecode := map[*ssa.Function]bool{}
+	for _, rel := range []string{"ipfix", "netflow/v9"} {
+		if dd := prog.Method(rel, "Decoder", "decodeData"); dd != nil {
+			for _, f := range prog.CG().ReachableRepo(dd) {
+				underDecode[f] = true
+			}
+		} else {
+			rr.Undecided(rel+":decodeData", token.NoPos, "record decoder not found")
+		}
+	}
+	for _, fn := range prog.RepoFuncs() {
+		rel := core.PkgRel(fn)
+		if (rel != "ipfix" && rel != "netflow/v9") || fn.Synthetic != "" {
+			continue
+		}
+		reads, writes := 0, 0
+		ownRecord := func(list ssa.Value) bool {
+			// the list of the record this method was called on (a parser filling its own record)
+			if fn.Signature.Recv() == nil || len(fn.Params) == 0 || underDecode[fn] {
+				return false
+			}
+			if n := namedOf(fn.Params[0].Type()); n == nil || n.Obj().Name() != "TemplateRecord" {
+				return false
+			}
+			if _, isPtr := fn.Params[0].Type().(*types.Pointer); !isPtr {
+				return false
+			}
+			ld, ok := stripConv(list).(*ssa.UnOp)
+			if !ok {
+				return false
+			}
+			fa, ok := ld.X.(*ssa.FieldAddr)
+			return ok && fa.X == ssa.Value(fn.Params[0])
+		}
+		bad := func(ins ssa.Instruction, list ssa.Value, what string) {
+			if ownRecord(list) {
+				return
+			}
+			writes++
+			rr.Fail(core.FuncName(fn)+":writes-specifier", ins.Pos(), what+" an element of a template's "+fieldLoadName(list)+": the list shares its storage with the cached template, so this datagram changes how later datagrams of the exporter are decoded")
+		}
+		allInstrs(fn, func(ins ssa.Instruction) {
+			switch x := ins.(type) {
+			case *ssa.IndexAddr:
+				if isList(x.X) {
+					reads++
+				}
+			case *ssa.Range:
+				if isList(x.X) {
+					reads++
+				}
+			case *ssa.Store:
+				if l := elemOf(x.Addr, 0); l != nil {
+					bad(ins, l, "stores into")
+				}
+			case ssa.CallInstruction:
+				com := x.Common()
+				if b, ok := com.Value.(*ssa.Builtin); ok {
+					if b.Name() == "copy" && len(com.Args) == 2 {
+						if l := elemOf(com.Args[0], 0); l != nil {
+							bad(ins, l, "copies into")
+						} else if isList(com.Args[0]) {
+							bad(ins, com.Args[0], "copies into")
+						}
+					}
+					return
+				}
+				if i, ok := elemWriters[calleeName(x)]; ok && i < len(com.Args) {
+					if l := elemOf(com.Args[i], 0); l != nil {
+						bad(ins, l, short(calleeName(x))+" writes")
+					}
+					return
+				}
+				// a pointer-receiver method of the repository called on an element, from a record decoder
+				if f := com.StaticCallee(); f != nil && prog.IsRepoFunc(f) && f.Signature.Recv() != nil && len(com.Args) > 0 && underDecode[fn] {
+					if _, isPtr := f.Signature.Recv().Type().(*types.Pointer); isPtr {
+						if l := elemOf(com.Args[0], 0); l != nil && len(sharedStoresThroughRecv(f)) > 0 {
+							bad(ins, l, core.FuncName(f)+" writes through its receiver,")
+						}
+					}
+				}
+			}
+		})
+		if reads > 0 && writes == 0 {
+			rr.OK(core.FuncName(fn)+":specifiers-read-only", fn.Pos(), fmt.Sprintf("%d element accesses, no write into a cached list", reads))
+		}
+	}
+}
+
+// sharedStoresThroughRecv: stores of f whose address is rooted at f's receiver.
+func sharedStoresThroughRecv(f *ssa.Function) []ssa.Instruction {
+	var out []ssa.Instruction
+	if len(f.Params) == 0 {
+		return nil
+	}
+	allInstrs(f, func(ins ssa.Instruction) {
+		if st, ok := ins.(*ssa.Store); ok && core.AddrRoot(st.Addr) == ssa.Value(f.Params[0]) {
+			out = append(out, ins)
+		}
+	})
+	return out
 }
